@@ -253,9 +253,9 @@ struct GenStats {
 };
 
 // History kinds
-enum Kind { K_NONE, K_ONE, K_BEFORE, K_BETWEEN, K_AFTER, K_FAT, K_ODD, K_LEGACY_A, K_LEGACY_B, K_DSTFIRST, K_LEGACY_NEG, K_BIGBANG_CHANGE, K_TYPES255, K_CHARS255, K_NKINDS };
+enum Kind { K_NONE, K_ONE, K_BEFORE, K_BETWEEN, K_AFTER, K_FAT, K_ODD, K_LEGACY_A, K_LEGACY_B, K_DSTFIRST, K_LEGACY_NEG, K_BIGBANG_CHANGE, K_TYPES255, K_CHARS255, K_NEWYEAR_OVERLAP, K_NEWYEAR_GAP, K_NKINDS };
 inline const char* kind_name(int k) {
-  static const char* n[] = {"none", "one", "seam-before", "seam-between", "seam-after", "fat-bigbang", "oddities", "legacy-dst-type0-first", "legacy-dst-type0-later", "first-period-is-dst", "legacy-negative-dst-type0", "bigbang-entry-changes-type", "typecnt-255", "charcnt-255"};
+  static const char* n[] = {"none", "one", "seam-before", "seam-between", "seam-after", "fat-bigbang", "oddities", "legacy-dst-type0-first", "legacy-dst-type0-later", "first-period-is-dst", "legacy-negative-dst-type0", "bigbang-entry-changes-type", "typecnt-255", "charcnt-255", "last-transition-overlaps-new-year", "last-transition-on-jan-1"};
   return n[k];
 }
 
@@ -338,6 +338,20 @@ inline bool build_zone(const Footer& f, int kind, int version, GenZone* out, Gen
   };
   auto rtype = [&](int k) { return k ? TType{px.dst_off, true, px.dst_abbr} : TType{px.std_off, false, px.std_abbr}; };
 
+  // an instant at or after t that is at least three days away from every rule transition (a recorded transition
+  // closer to a generated one than the offset change is not well-formed: their civil times would cross)
+  auto away_from_rule = [&](long long t) {
+    if (!has_rule) return t;
+    for (int tries = 0; tries < 12; ++tries) {
+      bool close = false;
+      const i128 y = civil_from_secs(t).y;
+      for (i128 yy = y - 1; yy <= y + 1; ++yy)
+        for (i128 e : {rule_start_utc(px, yy), rule_end_utc(px, yy)}) { i128 d = e - t; if (d < 0) d = -d; if (d < 3 * 86400) close = true; }
+      if (!close) return t;
+      t += 40 * 86400LL;
+    }
+    return t;
+  };
   switch (kind) {
     case K_NONE:
       // no transitions at all; type 0 must then be what the footer says
@@ -403,12 +417,29 @@ inline bool build_zone(const Footer& f, int kind, int version, GenZone* out, Gen
       }
       break;
     }
+    case K_NEWYEAR_OVERLAP:
+    case K_NEWYEAR_GAP: {
+      // the LAST recorded transition is a change of the standard offset in the first hours of 1 January local time
+      // (so, depending on the sign of the offset, still 31 December in UTC, or the reverse): the year from which the
+      // rule is generated and the 400-year window of far-future civil times hinge on which calendar year it is taken in.
+      // OVERLAP: the clock goes back across New Year (00:30 on 1 January becomes 23:30 on 31 December).
+      const bool ov = (kind == K_NEWYEAR_OVERLAP);
+      const int oo = ov ? S + 3600 : S - 3600;
+      if (oo <= -86400 || oo >= 86400) return false;
+      TType OLD{oo, false, "OLD"};
+      push(T_LMT, OLD);
+      const long long R = static_cast<long long>(secs_from_civil(Civil{2000, 1, 1, ov ? 0 : 5, ov ? 30 : 0, 0})) - oo;
+      const TType after = regime(R);
+      if (after.off != S || after.dst) return false;   // the footer must be in its standard regime at New Year
+      push(R, after);
+      break;
+    }
     case K_TYPES255: {
       // exactly 255 local-time types in the file (LMT + 253 fillers + the final regime): the ONE type the footer has
       // to add gets index 255, the last value an 8-bit type index can hold
       long long t = T_LMT;
       for (int i = 0; i < 253; ++i) { push(t, TType{S + 60 * (i + 1), false, "FIL"}); t += YEAR / 4; }
-      t += YEAR;
+      t = away_from_rule(t + YEAR);
       push(t, regime(t));
       if (T.size() != 255) return false;
       break;
@@ -416,7 +447,8 @@ inline bool build_zone(const Footer& f, int kind, int version, GenZone* out, Gen
     case K_CHARS255: {
       // abbreviation table of exactly 255 bytes: an abbreviation the footer has to append starts at index 255
       long long t = T_LMT + 2 * YEAR;
-      const TType last = regime(t + 40 * YEAR);
+      const long long t_last = away_from_rule(t + 40 * YEAR);
+      const TType last = regime(t_last);
       if (last.abbr == "LMT") return false;
       int need = 255 - 4 - static_cast<int>(last.abbr.size() + 1);   // bytes left for the filler names (each + NUL)
       int i = 0;
@@ -429,7 +461,7 @@ inline bool build_zone(const Footer& f, int kind, int version, GenZone* out, Gen
         need -= len + 1;
         ++i;
       }
-      push(t + 40 * YEAR - (t - (T_LMT + 2 * YEAR)), last);
+      push(t_last, last);
       break;
     }
     case K_FAT: {
